@@ -44,7 +44,11 @@ def scenarios(thorough):
               ("normalize_cas", entry, "normalize", "OLD", True, False, 0o644),
               ("newdir", entry, "content", "ABSENT", False, True, 0o644),
               ("readonly", entry, "content", "OLD", False, False, 0o444),
-              ("lenient", entry, "content_lenient", "OLD", False, False, 0o640)]
+              ("lenient", entry, "content_lenient", "OLD", False, False, 0o640),
+              # the file differs from the canonical text in its line endings only (CRLF): the bytes must still become the canonical ones
+              ("normalize_crlf", entry, "normalize_crlf", "OLD", False, False, 0o644),
+              ("normalize_crlf_cas", entry, "normalize_crlf", "OLD", True, False, 0o644),
+              ("same_content_over_crlf", entry, "content_same_crlf", "OLD", False, False, 0o644)]
     for entry in ("api", "cli"):
         s += [("new", entry, "content", "ABSENT", False, False, 0o644),
               ("overwrite", entry, "content", "OLD", False, False, 0o644),
@@ -65,7 +69,7 @@ class Sandbox:
         self.root = tempfile.mkdtemp(prefix="c16.", dir=os.environ.get("VERIF_SCRATCH", "/var/tmp"))
         self.dir = os.path.join(self.root, "sub") if sub else self.root
         self.target = os.path.join(self.dir, "doc.oct.md")
-        self.old_text = OLD_LENIENT if mode in ("normalize", "normalize_o") else OLD_CANON
+        self.old_text = OLD_LENIENT if mode in ("normalize", "normalize_o") else (OLD_CANON.replace("\n", "\r\n") if mode.endswith("crlf") else OLD_CANON)
         if old == "OLD":
             os.makedirs(self.dir, exist_ok=True)
             with open(self.target, "w", encoding="utf-8", newline="") as f:
@@ -109,11 +113,14 @@ class Sandbox:
 def invoke(sc, sb):
     """Call the entry point of the scenario; returns (status ok/error, returned hash or None)."""
     name, entry, mode, old, cas, sub, fmode = sc
-    base = sha(sb.old_text) if cas else None
+    # the tools hash the text as read (universal newlines), so for a CRLF file the accepted base_hash is the hash of its LF form
+    base = sha(sb.old_text.replace("\r\n", "\n")) if cas else None
     if entry == "tool":
         from octave_mcp.mcp.write import WriteTool
         kw = {"target_path": sb.target}
-        if mode in ("content", "content_lenient"):
+        if mode == "content_same_crlf":
+            kw["content"] = OLD_CANON
+        elif mode in ("content", "content_lenient"):
             kw["content"] = NEW_INPUT
             if mode == "content_lenient":
                 kw["lenient"] = True
